@@ -43,6 +43,7 @@ type Report struct {
 	Notes       []string
 	Assumptions []string
 	Extra       map[string]interface{}
+	Only        map[string]bool // if set, violations of other properties are dropped (they are another check's business)
 	nontrivial  map[string]bool
 	viol        map[string]*Violation
 	violOrder   []string
@@ -75,6 +76,9 @@ func (r *Report) Note(f string, a ...interface{}) { r.Notes = append(r.Notes, fm
 func (r *Report) Violate(v Violation) {
 	if v.Property == "" {
 		v.Property = r.Property
+	}
+	if r.Only != nil && !r.Only[v.Property] {
+		return
 	}
 	k := v.Property + "|" + v.Sig
 	if _, ok := r.viol[k]; ok {
